@@ -379,6 +379,24 @@ fn tmp_git_repo_dir(fetch_id: u64, name: &str, repo: &Url) -> PathBuf {
     git_checkouts_directory().join("tmp").join(repo_dir_name)
 }
 
+/// A temporary directory into which a commit is checked out before it is moved to its final
+/// location (see [commit_path]) with a single `rename`.
+///
+/// The resulting directory is:
+///
+/// ```ignore
+/// $HOME/.forc/git/checkouts/tmp/<fetch_id>-name-<repo_url_hash>-checkout
+/// ```
+///
+/// The commit is checked out into a `<commit_hash>` directory below it. That extra level keeps
+/// the staged checkout, which contains a `.forc_index` shortly before it is moved, out of reach
+/// of the local search of checkouts (see [with_search_checkouts]), and it lives below the
+/// checkouts directory so that the final `rename` does not cross file systems.
+fn tmp_checkout_dir(fetch_id: u64, name: &str, repo: &Url) -> PathBuf {
+    let dir_name = format!("{:x}-{}-checkout", fetch_id, git_repo_dir_name(name, repo));
+    git_checkouts_directory().join("tmp").join(dir_name)
+}
+
 /// Given a git reference, build a list of `refspecs` required for the fetch operation.
 ///
 /// Also returns whether or not our reference implies we require fetching tags.
@@ -517,6 +535,19 @@ pub fn commit_path(name: &str, repo: &Url, commit_hash: &str) -> PathBuf {
 /// to the git repository checkout path.
 pub fn fetch(fetch_id: u64, name: &str, pinned: &Pinned) -> Result<PathBuf> {
     let path = commit_path(name, &pinned.source.repo, &pinned.commit_hash);
+
+    // The commit is checked out into a staging directory and only moved to `path` once it is
+    // complete (index file included). `Fetch::fetch` re-uses `path` whenever it exists, so a
+    // crash or an I/O error part way through must never leave anything at `path`.
+    let staging_root = tmp_checkout_dir(fetch_id, name, &pinned.source.repo);
+    if staging_root.exists() {
+        let _ = fs::remove_dir_all(&staging_root);
+    }
+    let _cleanup_guard = scopeguard::guard(&staging_root, |dir| {
+        let _ = fs::remove_dir_all(dir);
+    });
+    let staging = staging_root.join(&pinned.commit_hash);
+
     // Checkout the pinned hash to the path.
     with_tmp_git_repo(fetch_id, name, &pinned.source, |repo| {
         // Change HEAD to point to the pinned commit.
@@ -525,18 +556,13 @@ pub fn fetch(fetch_id: u64, name: &str, pinned: &Pinned) -> Result<PathBuf> {
         #[cfg(fuellabs_sway_verif)]
         sway_types::verif_hooks::io_point("fetch.head_set", &|| String::new())?;
 
-        // If the directory exists, remove it. Note that we already check for an existing,
-        // cached checkout directory for re-use prior to reaching the `fetch` function.
-        if path.exists() {
-            let _ = fs::remove_dir_all(&path);
-        }
-        fs::create_dir_all(&path)?;
+        fs::create_dir_all(&staging)?;
         #[cfg(fuellabs_sway_verif)]
         sway_types::verif_hooks::io_point("fetch.dir_created", &|| String::new())?;
 
-        // Checkout HEAD to the target directory.
+        // Checkout HEAD to the staging directory.
         let mut checkout = git2::build::CheckoutBuilder::new();
-        checkout.force().target_dir(&path);
+        checkout.force().target_dir(&staging);
         repo.checkout_head(Some(&mut checkout))?;
         #[cfg(fuellabs_sway_verif)]
         sway_types::verif_hooks::io_point("fetch.checked_out", &|| String::new())?;
@@ -555,11 +581,30 @@ pub fn fetch(fetch_id: u64, name: &str, pinned: &Pinned) -> Result<PathBuf> {
 
         // Write the index file
         fs::write(
-            path.join(".forc_index"),
+            staging.join(".forc_index"),
             serde_json::to_string(&source_index)?,
         )?;
         #[cfg(fuellabs_sway_verif)]
         sway_types::verif_hooks::io_point("fetch.index_written", &|| String::new())?;
+
+        // If the directory exists, remove it. Note that we already check for an existing,
+        // cached checkout directory for re-use prior to reaching the `fetch` function.
+        if path.exists() {
+            let _ = fs::remove_dir_all(&path);
+        }
+        if let Some(parent) = path.parent() {
+            fs::create_dir_all(parent)?;
+        }
+        // Move the complete checkout into place. This is the last step on purpose.
+        fs::rename(&staging, &path).with_context(|| {
+            format!(
+                "failed to move the checkout of `{}` to \"{}\"",
+                name,
+                path.display()
+            )
+        })?;
+        #[cfg(fuellabs_sway_verif)]
+        sway_types::verif_hooks::io_point("fetch.renamed", &|| String::new())?;
         Ok(())
     })?;
     Ok(path)
